@@ -157,6 +157,7 @@ def msnap(m):
             _ev(a.atype),
             _ev(a.geom),
             a.formal_charge,
+            a.formal_spin,
             tuple(sorted((str(k), str(v)) for k, v in (a.attrib or {}).items())),
             tuple(repr(float(x) + 0.0) for x in coords[i]) if i < len(coords) else None,
         )
@@ -164,7 +165,7 @@ def msnap(m):
     )
     ch = getattr(m, "_atomic_charges", None)
     charges = tuple(repr(x + 0.0) if isinstance(x, float) else repr(x) for x in np.asarray(ch).tolist()) if ch is not None else None
-    bonds = tuple((idx.get(id(b.a1), -1), idx.get(id(b.a2), -1), _ev(b.btype), _ev(b.stereo)) for b in m.bonds)
+    bonds = tuple((idx.get(id(b.a1), -1), idx.get(id(b.a2), -1), _ev(b.btype), _ev(b.stereo), tuple(sorted((str(k), str(v)) for k, v in (b.attrib or {}).items()))) for b in m.bonds)
     return ((atoms, charges, coords.shape), bonds, m.name)
 
 
@@ -263,6 +264,15 @@ def base_text(name):
         mols = [lone_atom(), load("dummy.mol2"), third]
     elif name in ("gen_confs3.mol2", "gen_confs3.xyz"):
         mols = ml.Molecule.load_all_mol2(FILES / "pentane_confs.mol2")[:3]
+    elif name == "gen_unity.mol2":
+        # count-driven attribute records molli DOES implement: UNITY_ATOM_ATTR between ATOM and BOND
+        # (formal charges and a free attribute), UNITY_BOND_ATTR after BOND, then a second molecule
+        blk = load("dmf.mol2").dumps_mol2()
+        blk = blk.replace("@<TRIPOS>BOND\n", "@<TRIPOS>UNITY_ATOM_ATTR\n3 1\ncharge 1\n5 2\ncharge -1\nlabel_colour red\n@<TRIPOS>BOND\n", 1)
+        blk += "@<TRIPOS>UNITY_BOND_ATTR\n2 1\nstereo_hint up\n4 2\ncolour blue\nwidth 2\n"
+        # (the next block starts right at its MOLECULE record: molli's attribute loop does not skip a
+        #  "# ..." comment line, and an attribute record at the very end of a file is not readable either)
+        return ("mol2", blk + load("dummy.mol2").dumps_mol2().split("\n", 1)[1])
     elif name in SUBSTR_BASES:
         return ("mol2", "".join(with_record(load(f).dumps_mol2(), where) for f, where in SUBSTR_BASES[name]))
     elif name == "gen_nocharge.mol2":
@@ -297,6 +307,8 @@ QUICK_BASES = [
     "gen_mixed.mol2",
     "gen_mixed.xyz",
     "gen_nocharge.mol2",
+    "file:isornitrate.mol2",
+    "gen_unity.mol2",
     "gen_record_single.mol2",
     "gen_record_multi.mol2",
     "gen_confs3.mol2",
@@ -404,7 +416,7 @@ def judge(ctx, base, doc2, faults, record=True):
         cls, bpos, role = loc
         if cls.startswith("boundary-before-"):
             cls = cls[len("boundary-before-") :]  # the first line lost, whether cut before or inside it
-        r = f"/{role}" if role and f0["kind"] in ("garble-token", "delete-token", "count+1", "count-1", "retarget") else ""
+        r = f"/{role}" if role and f0["kind"] in ("garble-token", "delete-token", "count+1", "count-1", "retarget", "pad-token") else ""
         w = f"-{f0['where']}" if f0["kind"] == "extra-token" else ""
         return f"{fmt}|{f0['kind']}{w}|{cls}{r}|{bpos}:{symptom}"
 
@@ -429,7 +441,9 @@ def judge(ctx, base, doc2, faults, record=True):
         return viol("result-not-a-sequence-of-molecules", f"returned {type(res).__name__}"), "foreign"
     snaps = [msnap(m) for m in res]
     ctx.outcome(("list", len(res), cat))
-    truncation = all(f["kind"] == "truncate" for f in faults)
+    # the exception the property text makes is for cuts at BYTE offsets; a cut at a line boundary that
+    # leaves a well-formed file (an optional trailing record dropped) is treated like any other edit
+    truncation = all(f["kind"] == "truncate" for f in faults) and any(f.get("byte") for f in faults)
     if cat == "different" and not truncation:
         # a different but well-formed file: not damage in the property's sense - termination only
         ctx.add_note("texts_excluded_wellformed_different")
@@ -458,6 +472,83 @@ def judge(ctx, base, doc2, faults, record=True):
             return viol("counts-differ-from-own-header", f"molecule {pos + 1} has {na} atoms / {nb} bonds; the headers of the damaged text declare {hdrs[:6]}"), "header"
         j = k + 1
     return False, f"list:{len(res)}"
+
+
+# ---- single-structure loaders ---------------------------------------------------------------------------
+LINE_KINDS = ("truncate", "delete-line", "duplicate-line", "insert-line")
+
+
+def single_entries(fmt):
+    return [
+        (f"Structure.loads_{fmt}", lambda t: getattr(ml.Structure, f"loads_{fmt}")(t)),
+        (f"ml.loads(..., {fmt!r})", lambda t: ml.loads(t, fmt)),  # = Molecule.loads_<fmt>
+    ]
+
+
+def single_eligible(base, f):
+    """faults that touch what a single-structure loader consumes (the first record): everything on a small
+    text; on larger ones the header / count / section lines and every line-level fault of the first block"""
+    i = f["line"]
+    if i >= len(base.doc) or base.doc[i][2] != 0:
+        return False
+    if len(base.doc) <= 30:
+        return True
+    cls = base.doc[i][1]
+    if cls not in ("atom", "bond", "xyz-atom"):
+        return True
+    # of a run of atom / bond lines: line-level faults on its first and last line
+    edge = i == 0 or base.doc[i - 1][1] != cls or i + 1 >= len(base.doc) or base.doc[i + 1][1] != cls
+    return edge and f["kind"] in LINE_KINDS
+
+
+def judge_single_frame(ctx, base, doc2, f):
+    """loads_<fmt> / ml.loads return ONE structure, read from the first record only: it is that of the
+    undamaged text, or the call raises - unless the first record of the damaged text is, by the strict
+    reference, a well-formed record with other content (then only termination is checked)."""
+    fmt = base.fmt
+    text = T.doc_text(doc2)
+    if not hasattr(base, "single_ref"):
+        base.single_ref = {}
+        for name_, fn in single_entries(fmt):
+            r = guarded_read(fmt, None, len(base.doc), call=lambda fn=fn: fn(base.text))
+            if r[0] == "ok" and isinstance(r[1], ml.Promolecule):
+                base.single_ref[name_] = msnap(r[1])
+    cat1 = None
+    cls, bpos, role = T.fault_location(base.doc, f)
+    if cls.startswith("boundary-before-"):
+        cls = cls[len("boundary-before-") :]
+    for name_, fn in single_entries(fmt):
+        if name_ not in base.single_ref:
+            continue
+        out = guarded_read(fmt, None, len(doc2) + 2, call=lambda fn=fn: fn(text))
+        ctx.count(evaluations=1, transitions=1, traces=1)
+        case = {"layer": "single", "base": base.name, "fmt": fmt, "faults": [f], "text": text, "entry": name_}
+
+        def viol(symptom, what):
+            r = f"/{role}" if role and f["kind"] in ("garble-token", "delete-token", "count+1", "count-1", "retarget", "pad-token", "replace-token") else ""
+            ctx.violation(f"{fmt}|{f['kind']}|{cls}{r}|single-structure-loader:{symptom}", f"{base.name}, {describe_faults(base, [f])}, read by {name_}: {what}", case, None)
+
+        if out[0] == "hang":
+            ctx.outcome(("single-hang", out[1]))
+            viol(f"reader-did-not-terminate({out[1]})", "the call did not finish")
+            continue
+        if out[0] == "exc":
+            ctx.outcome(("single-exc", out[1]))
+            continue
+        ctx.outcome(("single-ok",))
+        if cat1 is None:
+            cat1 = T.classify_first_record(fmt, text, base.ref)
+        if cat1 == "different":
+            ctx.add_note("single_loader_first_record_wellformed_different")
+            continue
+        if not isinstance(out[1], ml.Promolecule):
+            viol("result-not-a-molecule", f"returned {type(out[1]).__name__}")
+            continue
+        got, ref = msnap(out[1]), base.single_ref[name_]
+        if got != ref:
+            na, nr = len(got[0][0]), len(ref[0][0])
+            sym = "partial-molecule-fewer-atoms-than-the-first-record" if na < nr else "altered-molecule"
+            viol(sym, f"returned {type(out[1]).__name__} {out[1].name!r} with {na} atoms; the first record of the undamaged text has {nr}")
 
 
 def describe_faults(base, faults):
@@ -505,7 +596,11 @@ def run_single(ctx, part):
             if _hangs >= MAX_HANGS_PER_PARTITION:
                 ctx.cap_hit(f"{name}: partition abandoned after {_hangs} watchdog time-outs")
                 break
-            judge(ctx, base, T.apply_fault(base.doc, f), [f])
+            d = T.apply_fault(base.doc, f)
+            judge(ctx, base, d, [f])
+            if single_eligible(base, f):
+                judge_single_frame(ctx, base, d, f)
+                ctx.add_note("faults_also_read_by_single_structure_loaders")
             ctx.add_note("faults_" + f["kind"])
         n += 1
     if ci == 0:
@@ -663,6 +758,12 @@ def run(ctx):
 
 def replay(ctx, case):
     install_guards()
+    if case.get("layer") == "single":
+        base = Base(case["base"])
+        doc = T.apply_fault(base.doc, case["faults"][0])
+        if T.doc_text(doc) != case["text"]:
+            raise HarnessError("replay: the fault descriptor no longer produces the recorded text")
+        return judge_single_frame(ctx, base, doc, case["faults"][0])
     if case.get("layer") == "bytes":
         from mc.props import c10_bytes
 
